@@ -572,8 +572,36 @@ class PhaseFieldScn(Scenario):
         return self.matrices(simu)
 
 
-SCENARIOS = {s.name: s for s in (ElasticScn, Elastic3DScn, AnisoScn, ThermalScn, HyperScn, BeamScn, Beam3DScn, PhaseFieldScn)}
-QUICK_SCN = ["elastic", "thermal", "hyperelastic", "beam", "beam3d", "phasefield", "elastic_trisot", "elastic3d"]
+class PhaseFieldHDScn(PhaseFieldScn):
+    """damage-based irreversibility (solver HistoryDamage: the damage kept is max(previous, newly solved)), Bourdin split (K(d) only),
+    loads ordered so that the FIRST boundary-condition variant is the highest one: solve, re-enter lower loads, solve = an unloading
+    step in which the stored damage is not the one the last displacement system was assembled with."""
+    name = "phasefield_hd"
+
+    def make_model(self, cfg):
+        from EasyFEA import Models
+
+        p = cfg["params"]
+        PF = Models.PhaseField
+        self._mat = Models.Elastic.Isotropic(2, E=p["E"], v=0.3, planeStress=False, thickness=0.7)
+        return PF(self._mat, PF.SplitType.Bourdin, PF.ReguType.AT2, Gc=p["Gc"], l0=p["l0"], solver=PF.SolverType.HistoryDamage)
+
+    def apply_bc(self, simu, cfg):
+        simu.Bc_Init()
+        if cfg["bc"] is None:
+            return
+        lo, hi = self.sides_by_index(simu.mesh, cfg)
+        simu.add_dirichlet(lo, [0.0, 0.0], ["x", "y"])
+        simu.add_dirichlet(hi, [{0: 0.6, 1: 0.15, 2: 0.3}[cfg["bc"]]], ["x"])
+
+    def observe(self, simu, cfg, solve=True):
+        out = self.matrices(simu)
+        out["Wdef"] = np.atleast_1d(np.asarray(simu.Result("Wdef"), dtype=float))
+        return out
+
+
+SCENARIOS = {s.name: s for s in (ElasticScn, Elastic3DScn, AnisoScn, ThermalScn, HyperScn, BeamScn, Beam3DScn, PhaseFieldScn, PhaseFieldHDScn)}
+QUICK_SCN = ["elastic", "thermal", "hyperelastic", "beam", "beam3d", "phasefield", "elastic_trisot", "elastic3d", "phasefield_hd"]
 
 
 def cases(tier, seed):
@@ -591,7 +619,7 @@ def cases(tier, seed):
     if tier == "quick":
         # mesh-history interplay at depth 3 with an observation after every operation (reduced alphabet)
         sub = ["solve_save", "replacemesh", "setiter0", "rotate", "rebc"]
-        for name in ("elastic", "thermal", "beam"):
+        for name in ("elastic", "thermal", "beam", "phasefield_hd"):
             ops = [o for o in sub if o in SCENARIOS[name]().ops()]
             for seq in itertools.product(ops, repeat=3):
                 out.append({"kind": "history", "scn": name, "ops": list(seq), "regime": "each"})
